@@ -332,7 +332,7 @@ func c07AuditFifoOnce(seed int64, b int, out *childOut, report bool) bool {
 			lines = append(lines, vlib.AuLogin(ts, seq, strconv.Itoa(plan.Pid[op.K]), plan.Sid[op.K]))
 		case opEv:
 			typ := op.Typ
-			if typ == "SYSCALL" {
+			if !rawUserTypes[typ] {
 				typ = "USER_CMD"
 			}
 			lines = append(lines, vlib.AuUser(typ, ts, seq, plan.Pid[op.K], plan.Sid[op.K], "PAM:x", "success"))
